@@ -132,9 +132,21 @@ type LoopSpec struct {
 	Invariants []*Clause
 	Decreases  []Expr
 	Cut        bool
+	Once       bool // only the first path that reaches the header continues (from a state that keeps nothing but the invariant)
+}
+
+// CutSpec: an intermediate assertion placed just before the n-th static call of Callee in
+// the function body. Every path reaching it proves the invariants; one path continues from a
+// havocked state that satisfies them (like a loop header that is visited once).
+type CutSpec struct {
+	Ordinal    int
+	Callee     string
+	Nth        int
+	Invariants []*Clause
 }
 
 type Contract struct {
+	Cuts      []*CutSpec
 	P         Pos
 	FuncName  string
 	Extern    bool
@@ -758,7 +770,10 @@ func (lx *lexer) parseContract() *Contract {
 				c.Loops[n] = ls
 			}
 			for {
-				if lx.isId("invariant") {
+				if lx.isId("once") {
+					lx.next()
+					ls.Once = true
+				} else if lx.isId("invariant") {
 					lx.next()
 					ls.Invariants = append(ls.Invariants, lx.parseClause())
 				} else if lx.isId("decreases") && !lx.peek().bol {
@@ -767,13 +782,31 @@ func (lx *lexer) parseContract() *Contract {
 				} else if lx.isId("decreases") && lx.peek().bol && lx.peekIndentedLoopClause() {
 					lx.next()
 					ls.Decreases = append(ls.Decreases, lx.parseExpr())
-				} else if lx.isId("cut") {
-					lx.next()
-					ls.Cut = true
 				} else {
 					break
 				}
 			}
+		case "cut":
+			lx.next()
+			nt := lx.next()
+			cs := &CutSpec{Nth: 1}
+			fmt.Sscan(nt.text, &cs.Ordinal)
+			lx.expect(":")
+			if !lx.isId("before") {
+				lx.fail("expected 'before <callee>' after 'cut N:'")
+			}
+			lx.next()
+			raw := lx.restOfLine()
+			if i := strings.Index(raw, "#"); i >= 0 {
+				fmt.Sscan(raw[i+1:], &cs.Nth)
+				raw = raw[:i]
+			}
+			cs.Callee = raw
+			for lx.isId("invariant") {
+				lx.next()
+				cs.Invariants = append(cs.Invariants, lx.parseClause())
+			}
+			c.Cuts = append(c.Cuts, cs)
 		case "invariant":
 			lx.fail("invariant outside loop clause")
 		case "dispatch":
